@@ -90,9 +90,45 @@ theorem C10_oraclePrice_forged_rejected (st : AuthState) (r : Request) (h : r.si
     admitOraclePrice st r = false := by
   simp [admitOraclePrice, h]
 
+/-- a create-price transaction carrying the submissions of several validators: admitted ⇒ EVERY
+submission is signed by the consensus key of the validator it is attributed to, whatever its slot -/
+theorem C10_oraclePriceTx_admit_implies_every_signer_rightful (st : AuthState) (rs : List Request)
+    (h : admitOraclePriceTx st rs = true) :
+    ∀ r ∈ rs, r.sig = .valid ∧ st.isValidator (actsFor .oraclePrice r) = true := by
+  intro r hr
+  simp only [admitOraclePriceTx, List.all_eq_true] at h
+  exact C10_oraclePrice_admit_implies_rightful st r (h r hr)
+
+/-- … so one forged, missing or key-mismatching signature in ANY slot refuses the whole transaction
+(the valid signatures of the other signers do not cover it) -/
+theorem C10_oraclePriceTx_any_forged_rejected (st : AuthState) (rs : List Request) (r : Request)
+    (hr : r ∈ rs) (h : r.sig ≠ .valid) : admitOraclePriceTx st rs = false := by
+  cases hadm : admitOraclePriceTx st rs with
+  | false => rfl
+  | true => exact absurd (C10_oraclePriceTx_admit_implies_every_signer_rightful st rs hadm r hr).1 h
+
+/-- the decision "verify the first slot, then go on" (a `return next(…)` inside the signature loop):
+stated here only to be refuted — it is NOT the property -/
+def admitOraclePriceTxFirstSlotOnly (st : AuthState) : List Request → Bool
+  | [] => false
+  | r :: rest => admitOraclePrice st r && rest.all (fun q => st.isValidator q.arg0)
+
+theorem C10_oraclePriceTx_first_slot_only_is_not_enough :
+    ∃ (st : AuthState) (rs : List Request), admitOraclePriceTxFirstSlotOnly st rs = true ∧
+      admitOraclePriceTx st rs = false ∧ ∃ r ∈ rs, r.sig ≠ .valid ∧ st.isValidator (actsFor .oraclePrice r) = true :=
+  ⟨{ gateway := 1, avsOwners := fun _ => [], isAVS := fun _ => false, isOperator := fun _ => false,
+     isValidator := fun a => a == 30 || a == 31, authority := 99, mainnet := true },
+   [{ callerAddress := 0, origin := 30, arg0 := 30, sig := .valid }, { callerAddress := 0, origin := 30, arg0 := 31, sig := .forged }],
+   by decide, by decide, { callerAddress := 0, origin := 30, arg0 := 31, sig := .forged }, by simp, by decide, by decide⟩
+
 def exState : AuthState :=
   { gateway := 1, avsOwners := fun a => if a = 50 then [60] else [], isAVS := fun a => a == 50 || a == 77,
     isOperator := fun a => a == 20, isValidator := fun a => a == 30, authority := 99, mainnet := true }
+
+example : admitOraclePriceTx { exState with isValidator := fun a => a == 30 || a == 31 }
+    [{ callerAddress := 0, origin := 30, arg0 := 30, sig := .valid }, { callerAddress := 0, origin := 31, arg0 := 31, sig := .valid }] = true := by decide
+example : admitOraclePriceTx { exState with isValidator := fun a => a == 30 || a == 31 }
+    [{ callerAddress := 0, origin := 30, arg0 := 30, sig := .valid }, { callerAddress := 0, origin := 30, arg0 := 31, sig := .forged }] = false := by decide
 
 /-- operator opt-in/out and BLS key registration through the AVS precompile: the property wants them
 to take effect only for the signer of the transaction -/
